@@ -166,6 +166,8 @@ def kernel_atomizer(varnames, f=None, perm=None):
 
     def label(x):
         """idx1 / idx2 / idx3 for an index expression over the theta axis"""
+        if f is None and isinstance(x, ast.Name) and x.id in IDX:
+            return perm.get(x.id, x.id) if perm else x.id           # a reference expression written over the role names themselves
         m = triple_member(f, x) if f is not None else None
         if m is None:
             return None
@@ -694,15 +696,7 @@ def r14(ctx):
     Spelling, term order, named intermediates and log(1/x) = -log(x) do not matter; a tolerance added to alpha or to the quadratic form does."""
     base, f = kernel_form(ctx)
     pv, pred, mask, dist, env = kernel_names(f)
-    # the locals that hold member 1 / 2 / 3 of the sampled triples, whatever they are called
-    names = sorted({x.id for x in ast.walk(f.node) if isinstance(x, ast.Name)})
-    member = {}
-    for k_ in names:
-        r_ = triple_member(f, ast.Name(id=k_, ctx=ast.Load()))
-        if r_ is not None:
-            member.setdefault(r_, k_)
-    ctx.need(set(member) == {0, 1, 2}, f"{f.site()}: the three locals holding the members of the sampled triples were not found")
-    I = {k + 1: member[k] for k in range(3)}
+    I = {1: IDX[0], 2: IDX[1], 3: IDX[2]}          # the reference is written over the role names; the kernel's own index expressions are read by role
     v = lambda k: f"{pv}[:, {I[k]}, :]"
     m = lambda k: f"{pred}[:, {I[k]}, :]"
     alpha = f"({v(1)} * {v(2)} + {v(2)} * {v(3)} + {v(1)} * {v(3)})"
@@ -710,14 +704,14 @@ def r14(ctx):
     ref = (f"logsumexp(np.sum({mask}[:, {I[1]}, :] * 0.5 * np.log(1.0 / {alpha}), axis=-1) + "
            f"np.sum(-(0.5 * {v(1)} * {v(2)} * {v(3)} / np.square({alpha})) * ({v(3)} * np.square({m(1)} - {m(2)}) + {v(2)} * np.square({m(1)} - {m(3)}) "
            f"+ {v(1)} * np.square({m(2)} - {m(3)})), axis=-1) + ({df} * np.log({dist}[{I[1]}, {I[2]}] + {dist}[{I[2]}, {I[3]}] + {dist}[{I[1]}, {I[3]}]))[np.newaxis, :], axis=1)")
-    N = Norm(atomizer=kernel_atomizer((pv, pred, mask, dist), f, None), strict=True)
+    N = Norm(atomizer=kernel_atomizer((pv, pred, mask, dist), None, None), strict=True)
     want = N.n(parse_expr(ref))
     if base == want:
         ctx.ok("R14", f"{f.site()}::estimator", "the returned expression normalises to the documented estimator")
         return
     # recognised wrong: a small numeric tolerance enters the score
     rets = returns(f.node)
-    e = inline(rets[0].value, {k: x for k, x in single_defs(f.node).items() if k not in set(member.values())})
+    e = inline(rets[0].value, single_defs(f.node))
     eps = sorted({x.value for x in ast.walk(e) if isinstance(x, ast.Constant) and isinstance(x.value, float) and 0 < abs(x.value) < 1e-3})
     if eps:
         ctx.check("R14", f"{f.site()}::estimator", False, "",
